@@ -247,3 +247,29 @@ func vs_paramBetween(ps []spec.Parameter, j, n int, loc, name string) bool {
 func vs_paramAfter(ps []spec.Parameter, j int, loc, name string) bool {
 	return vs_paramBetween(ps, j, len(ps), loc, name)
 }
+
+// ---- endpoint drivers ----
+
+// vs_opsOK: what getURLMethodsFor builds: every entry has its path item and operation.
+func vs_opsOK(m URLMethods) bool {
+	return vs_all(func(um URLMethod) bool {
+		return vs_has(m, um) ==> m[um] != nil && m[um].ParentPathItem != nil && m[um].Operation != nil
+	})
+}
+
+// vs_deprecatedOp: docs/reference/transform/diff.md: removing an endpoint that was marked deprecated is not breaking.
+func vs_deprecatedOp(op *PathItemOp) bool {
+	return (op.ParentPathItem.Options != nil && op.ParentPathItem.Options.Deprecated) || op.Operation.Deprecated
+}
+
+// vs_deletedEntry: d reports the removal of an endpoint of the old spec that the new spec lacks:
+// classified Breaking unless the endpoint was deprecated.
+func vs_deletedEntry(m1, m2 URLMethods, d SpecDifference) bool {
+	um := URLMethod{d.DifferenceLocation.URL, d.DifferenceLocation.Method}
+	return vs_has(m1, um) && !vs_has(m2, um) && d.DifferenceLocation.Response == 0 &&
+		((!vs_deprecatedOp(m1[um]) && d.Code == DeletedEndpoint && d.Compatibility == Breaking) ||
+			(vs_deprecatedOp(m1[um]) && d.Code == DeletedDeprecatedEndpoint))
+}
+
+// vs_URLMethod: the type URLMethod under a name that local variables of the package do not shadow.
+type vs_URLMethod = URLMethod
